@@ -300,7 +300,7 @@ Plan make_plan(const Profile &prof, uint64_t seed) {
 
   // ---- tasks
   int ntasks = 1;
-  if (pf == PROF_CONC) ntasks = r.range(2, prof.thorough ? 4 : 3);
+  if (pf == PROF_CONC) ntasks = r.range(2, prof.thorough ? (r.below(4) ? 4 : 6) : 3);
   else if (r.below(5) == 0) ntasks = r.range(2, 3);
   if (prof.check == "C18") ntasks = std::max(ntasks, 2);
   uint32_t fault_pct = pf == PROF_HIST ? 15 : pf == PROF_ARITH ? 8 : pf == PROF_XGRID ? 10 : 2;
